@@ -157,8 +157,10 @@ def initSt : St :=
               { cls := "Function", proto := some objProto,
                 props := [("call", p101 (.ref 3)), ("apply", p101 (.ref 4)), ("bind", p101 (.ref 5))], val := .native "proto" },
               nativeFn "call" 1, nativeFn "apply" 2, nativeFn "bind" 1,
-              { cls := "Error", proto := some objProto, props := [("name", p101 (.str "TypeError"))] },
-              { cls := "Error", proto := some objProto, props := [("name", p101 (.str "ReferenceError"))] },
+              -- the NativeError prototype objects (class "Error" in otto; no program of this layer can reach them,
+              -- only their `name` is read, through the Error objects that inherit from them)
+              { cls := "Object", proto := some objProto, props := [("name", p101 (.str "TypeError"))] },
+              { cls := "Object", proto := some objProto, props := [("name", p101 (.str "ReferenceError"))] },
               { cls := "String", proto := some objProto, props := [] },
               { cls := "Number", proto := some objProto, props := [] },
               { cls := "Boolean", proto := some objProto, props := [] } ],
@@ -959,6 +961,7 @@ def evalE : Nat → FE → M MV
           deferM (evalProgram n vs ds body) leaveScope)
         leaveScope
       pure (.val v)
+termination_by structural n => n
 
 /-- the argument loop of the call / new expressions (:195, :272) -/
 def evalArgs : Nat → FEs → M (List V)
@@ -968,6 +971,7 @@ def evalArgs : Nat → FEs → M (List V)
     let v ← resolve (← evalE n e)
     let vs ← evalArgs n r
     pure (v :: vs)
+termination_by structural n => n
 
 /-- cmpl_evaluate_expression.go:303: `result.defineProperty(key, value, 0o111, false)` per property -/
 def evalProps : Nat → FProps → Nat → M Unit
@@ -977,6 +981,7 @@ def evalProps : Nat → FProps → Nat → M Unit
     let v ← resolve (← evalE n e)
     let _ ← defineProperty result k (p111 v) false
     evalProps n r result
+termination_by structural n => n
 
 /-- cmpl_evaluate.go:7 cmplEvaluateNodeProgram(node, eval = true) as called by builtinGlobalEval (builtin.go:29–33) -/
 def evalProgram : Nat → List String → FDecls → FSs → M V
@@ -986,6 +991,7 @@ def evalProgram : Nat → List String → FDecls → FSs → M V
     variableDeclaration vs
     let r ← evalList n body .undef
     pure (match r with | .val v => v | .ret v => v | _ => .undef)
+termination_by structural n => n
 
 /-- type_function.go:164 object.call -/
 def callObj : Nat → Nat → V → List V → M V
@@ -1006,13 +1012,15 @@ def callObj : Nat → Nat → V → List V → M V
         let stash ← enterFunctionScope (some fstash) this
         deferM (callNodeFunction n o stash node argumentList) leaveScope
       | _ => throwErr "TypeError"                                                       -- :227
+termination_by structural n => n
 
 /-- builtin_function.go: builtinFunctionCall (:92), builtinFunctionApply (:62), builtinFunctionBind (:108) -/
 def nativeCall : Nat → String → V → List V → M V
   | 0, _, _, _ => outOfFuel
   | n+1, name, this, args => do
     let σ ← getSt
-    if !isCall σ this then throwErr "TypeError"
+    if name = "proto" then pure .undef           -- Function.prototype itself accepts anything and returns undefined
+    else if !isCall σ this then throwErr "TypeError"
     else match this with
       | .ref thisObject =>
         let arg0 := args.head?.getD .undef
@@ -1033,6 +1041,7 @@ def nativeCall : Nat → String → V → List V → M V
           pure (.ref b)
         else throwErr "TypeError"
       | _ => throwErr "TypeError"
+termination_by structural n => n
 
 /-- cmpl_evaluate.go:27 cmplCallNodeFunction -/
 def callNodeFunction : Nat → Nat → Nat → FE → List V → M V
@@ -1045,6 +1054,7 @@ def callNodeFunction : Nat → Nat → Nat → FE → List V → M V
       -- :75–79, then type_function.go:221–224
       pure (match result with | .ret v => v | _ => .undef)
     | _ => throwErr "TypeError"
+termination_by structural n => n
 
 /-- type_function.go construct, defaultConstruct (:3), bindFunctionObject.construct (:103: the target's
     [[Construct]] with the bound arguments followed by the call's) -/
@@ -1073,6 +1083,7 @@ def defaultConstruct : Nat → Nat → List V → M V
      | none => pure ())
     let value ← callObj n fn (.ref obj) argumentList
     pure (match value with | .ref r => .ref r | _ => .ref obj)
+termination_by structural n => n
 
 /-- type_function.go:264 hasInstance -/
 def hasInstance : Nat → Nat → V → M Bool
@@ -1097,6 +1108,7 @@ def hasInstance : Nat → Nat → V → M Bool
                  | none => false)
              | _ => throwErr "TypeError")
           | _ => pure false
+termination_by structural n => n
 
 /-- cmpl_evaluate_statement.go:10 cmplEvaluateNodeStatement -/
 def evalS : Nat → FS → M SV
@@ -1181,6 +1193,7 @@ def evalS : Nat → FS → M SV
        | _ => pure value)
     | .brk l => pure (.brk (l.getD ""))                                                 -- :37
     | .cont l => pure (.cont (l.getD ""))
+termination_by structural n => n
 
 /-- the nodeBlockStatement case, cmpl_evaluate_statement.go:26–36 -/
 def evalBlock : Nat → FSs → M SV
@@ -1193,6 +1206,7 @@ def evalBlock : Nat → FSs → M SV
     match value with
     | .brk t => if consumes labels t then pure .empty else pure value
     | _ => pure value
+termination_by structural n => n
 
 /-- cmpl_evaluate_statement.go:126 cmplEvaluateNodeStatementList: `var result Value` is undefined, not empty -/
 def evalList : Nat → FSs → V → M SV
@@ -1204,6 +1218,7 @@ def evalList : Nat → FSs → V → M SV
     | .empty => evalList n r result
     | .val v => evalList n r v
     | _ => pure value
+termination_by structural n => n
 
 /-- the statements of a loop body, one by one (`for _, node := range body`) -/
 def loopBody : Nat → FSs → List String → SV → M Step
@@ -1217,6 +1232,7 @@ def loopBody : Nat → FSs → List String → SV → M Step
     | .ret _ => pure (.ret value)
     | .brk t => if consumes labels t then pure (.brk result) else pure (.ret value)
     | .cont t => if consumes labels t then pure (.cont result) else pure (.ret value)
+termination_by structural n => n
 
 /-- cmpl_evaluate_statement.go:418 cmplEvaluateModeWhileStatement -/
 def evalWhile : Nat → FE → FSs → List String → SV → M SV
@@ -1231,6 +1247,7 @@ def evalWhile : Nat → FE → FSs → List String → SV → M SV
       | .cont r => evalWhile n test body labels r
       | .brk r => pure r
       | .ret v => pure v
+termination_by structural n => n
 
 /-- cmpl_evaluate_statement.go:208 `for obj != nil { … obj = obj.prototype … }` -/
 def forInChain : Nat → String → FSs → List String → Nat → Bool → Option Nat → SV → List String → M SV
@@ -1255,6 +1272,7 @@ def forInChain : Nat → String → FSs → List String → Nat → Bool → Opt
         let next := match σ.obj? obj with | some o => o.proto | none => none
         forInChain n x body labels sourceObject keep next
           (match enumerateValue with | .empty => result | ev => ev) visited'
+termination_by structural n => n
 
 /-- `obj.enumerate(false, func(name string) bool { … })`: `some result` = `obj = nil; return false` -/
 def forInNames : Nat → String → FSs → List String → Nat → Bool → Nat → List (String × Bool) → SV → SV → List String →
@@ -1284,6 +1302,7 @@ def forInNames : Nat → String → FSs → List String → Nat → Bool → Nat
         | .brk ev' => pure (some (match ev' with | .empty => result | e => e), (ev', visited'))
         | .cont ev' => forInNames n x body labels sourceObject keep obj rest result ev' visited'
         | .next ev' => forInNames n x body labels sourceObject keep obj rest result ev' visited'
+termination_by structural n => n
 
 end
 
